@@ -137,6 +137,29 @@ def rule_r1_r2(ctx: Ctx) -> None:
                     if set(c1) != {"K1", "K2"} or set(c2) != {"K1", "K2"}:
                         bad = bad or (f"mask={mask}: the children have keys {sorted(c1)} / {sorted(c2)}, the parents K1, K2", mask)
                     outcomes[mask] = tuple("1" if c1.get(k) == P1[k] else "2" for k in ("K1", "K2"))
+            # a parent that lacks some keys (possible for genotypes that grow on demand): the gene lists of one child must be
+            # distinct objects - otherwise a later in-place extension or a mutation changes several keys at once
+            try:
+                p1d = {"K1": _genes("a", 2), "K2": _genes("a", 1, 3), "K3": _genes("a", 1, 4)}
+                res, envs = run_operator(ctx, f, Script([], [True, True, True]), {},
+                                         {ps[0]: _mk(gcls, p1d, "r1"), ps[1]: _mk(gcls, {"K1": _genes("b", 2)}, "r2")})
+                for (trace, rv, notes) in res:
+                    if any(e.kind == "raise" for e in trace) or not (isinstance(rv, list) and len(rv) == 2):
+                        continue
+                    for ci, child in enumerate(rv):
+                        dna = child.fields.get("dna") if isinstance(child, Obj) else None
+                        if not isinstance(dna, dict):
+                            continue
+                        ks = [k for k, v in dna.items() if isinstance(v, list)]
+                        for i_, k1 in enumerate(ks):
+                            for k2 in ks[i_ + 1:]:
+                                if dna[k1] is dna[k2]:
+                                    bad = bad or (f"when a parent lacks the keys {k1} and {k2}, child {ci + 1} holds one and the same list object under both "
+                                                  f"keys: mapping or mutating the child later changes several keys at once", None)
+                            if any(dna[k1] is v for v in p1d.values()):
+                                bad = bad or (f"child {ci + 1} shares the gene list under {k1} with a parent", None)
+            except Budget:
+                pass
             if not bad and not und and len(outcomes) == 4:
                 if outcomes[(True, True)][0] == outcomes[(False, True)][0] or outcomes[(True, True)][1] == outcomes[(True, False)][1]:
                     bad = (f"flipping a key's mask bit does not swap the parents for that key ({outcomes}): the mask has no effect", None)
